@@ -5,7 +5,7 @@ from harness import common, layerb as B, schemes as S
 
 from univers.version_constraint import VersionConstraint
 
-MODULES = ["Univers.Props.C07"]
+MODULES = ["Univers.Props.C07", "Univers.Props.Schemes"]
 LEVEL = "proof"
 RULE = ("bounded-exhaustive: every comparator sequence up to length L over distinct versions, presented in a "
         "seeded random order, plus variants with one duplicated version and with stars, on real versions of every "
